@@ -207,6 +207,91 @@ def run_pairs(cfg, counters, violations, samples):
 _RES = [0]
 
 
+_FACTORIES = {}
+
+
+def http_roundtrip(router, method, target, r):
+    """one request through the library's HTTPFactory channel on a StringTransport; returns (status, raw body)"""
+    import contextlib
+    import io
+    from twisted.internet.testing import StringTransport
+    from twisted.internet.address import IPv4Address
+    from mpgameserver import http_server as H
+    fac = _FACTORIES.get(id(router))
+    if fac is None:
+        _FACTORIES.clear()
+        fac = _FACTORIES[id(router)] = (H.HTTPFactory(router=router), router)
+    proto = fac[0].buildProtocol(None)
+    tr = StringTransport(peerAddress=IPv4Address("TCP", "10.%d.%d.%d" % (r.randrange(256), r.randrange(256), r.randrange(1, 255)), r.randint(1024, 65000)))
+    tr.setTcpNoDelay = lambda v: None
+    proto.makeConnection(tr)
+    with contextlib.redirect_stdout(io.StringIO()):
+        proto.dataReceived(("%s %s HTTP/1.1\r\nHost: x\r\nConnection: close\r\n\r\n" % (method, target)).encode("utf-8"))
+    raw = tr.value()
+    try:
+        from twisted.python.failure import Failure
+        from twisted.internet.error import ConnectionDone
+        with contextlib.redirect_stdout(io.StringIO()):
+            proto.connectionLost(Failure(ConnectionDone()))
+    except Exception:
+        pass
+    if not raw.startswith(b"HTTP/"):
+        return None, raw
+    head, _, body = raw.partition(b"\r\n\r\n")
+    return int(head.split(b" ", 2)[1]), body
+
+
+def run_longlived(cfg, counters, violations, samples):
+    """one router that serves thousands of requests: whatever it learns from the traffic, the FIRST registered matching route
+    answers - also when a later overlapping route is by far the more popular one"""
+    from mpgameserver.http_server import Router, Route, Request, Response
+    r = rng("C16", cfg["seed"], "longlived")
+    maxp, maxs = BOUNDS[cfg["tier"]]
+    pats = all_patterns(min(maxp, 3))
+    paths = all_paths(min(maxs, 3))
+    parsed_pats = [(pt, parse_pattern(pt)) for pt in pats]
+    n_tables = 12 if cfg["tier"] == "quick" else 150
+    done = 0
+    for _ in range(n_tables * 6):
+        if done >= n_tables:
+            break
+        hot = r.choice(paths)
+        ms = [pt for pt, pp in parsed_pats if ref_match(pp, hot)[0] == MATCH]
+        if len(ms) < 2:
+            continue
+        chosen = r.sample(ms, min(len(ms), r.randint(2, 4)))
+        parsed = [parse_pattern(pt) for pt in chosen]
+        # requests: the hot path now and then; mostly paths that only LATER routes of the table match
+        later_only = [pth for pth in r.sample(paths, min(len(paths), 400))
+                      if ref_match(parsed[0], pth)[0] == NOMATCH and any(ref_match(pp, pth)[0] == MATCH for pp in parsed[1:])]
+        if not later_only:
+            continue
+        if any(ref_match(pp, pth)[0] == UNSPEC for pp in parsed for pth in later_only[:8] + [hot]):
+            continue
+        done += 1
+        router = Router()
+        routes = [Route("r%d" % j, "GET", pt, (lambda req, _n="r%d" % j: Response(payload=_n))) for j, pt in enumerate(chosen)]
+        router.registerRoutes(routes)
+        counters.inc("longlived_tables")
+        for i in range(1500):
+            path = hot if i % 50 == 49 else r.choice(later_only[:8])
+            want = None
+            for rt, pp in zip(routes, parsed):
+                if ref_match(pp, path)[0] == MATCH:
+                    want = rt
+                    break
+            res = router.getRoute("GET", path)
+            counters.inc("longlived_lookups")
+            if (res[0] if res else None) is not want:
+                if sum(1 for v in violations if v["mechanism"] == "table-first-match") < 8:
+                    violations.append({"mechanism": "table-first-match",
+                                       "msg": "long-lived router, table %r, lookup %d, GET %r: chose %s, the first registered matching route is %s" % (
+                                           chosen, i, path, res[0].name if res else None, want.name if want else None),
+                                       "case": {"table": chosen, "path": path, "lookup": i}})
+                break
+    return done
+
+
 def run_tables(cfg, counters, violations, samples):
     """first-match order, methods and dispatch 404 on small tables"""
     from mpgameserver.http_server import Router, Route, Request, Response
@@ -358,6 +443,34 @@ def run_tables(cfg, counters, violations, samples):
                         counters.inc("dispatch_routed")
                         if req.matches is None or not bindings_agree(want[2], want[1], req.matches):
                             bad = bad or "request.matches %r, grammar says %r" % (req.matches, want[1])
+                # the same request through the real HTTP channel (HTTPFactory on a StringTransport, no reactor), its target decorated
+                # with a query and / or a fragment: what is routed is the target's PATH
+                if not bad and case % 4 == 1 and _k % 3 == 0 and method in ("GET", "DELETE") and path.startswith("/") and not path.startswith("//") and not any(ch in path for ch in " ?#;\r\n\t"):
+                    # (a target that starts with two slashes is a network-path reference - its first segment is an authority, not path)
+                    suffix = r.choice(["", "?x=1", "#frag", "#frag?x=1", "?x=1#frag", "?", "#", "?a=b&c#d/e", "#a/b", "?q=%2F#"])
+                    try:
+                        status, body_ = http_roundtrip(router, method, path + suffix, r)
+                    except Exception as e:
+                        status, body_ = None, repr(e).encode()
+                    counters.inc("http_channel_requests")
+                    counters.inc("http_channel_requests_with_fragment" if "#" in suffix else "http_channel_requests_without_fragment")
+                    if status == 429:
+                        counters.inc("rate_limited_not_judged")
+                    elif want is None:
+                        if status != 404:
+                            bad = "through the HTTP channel, target %r: status %r, expected 404" % (path + suffix, status)
+                    elif want[0].websocket:
+                        if status != 400:
+                            bad = "through the HTTP channel, target %r: status %r, the first matching route is a websocket route (400)" % (path + suffix, status)
+                    elif status is None or status == 404 or want[0].name.encode() not in body_:
+                        bad = "through the HTTP channel, target %r: status %r body %r, expected route %s" % (path + suffix, status, body_[-40:], want[0].name)
+                    else:
+                        counters.inc("http_channel_routed")
+                    if bad and sum(1 for v in violations if v["mechanism"] == "http-target-path-misrouted") < 8:
+                        violations.append({"mechanism": "http-target-path-misrouted", "msg": "table %r, %s: %s" % ([(rt.method, rt.pattern) for rt in routes], method, bad),
+                                           "case": {"table": [(rt.method, rt.pattern) for rt in routes], "method": method, "target": path + suffix}})
+                    if bad:
+                        continue
                 if bad:
                     # reuse the single-pattern classifier on the offending route where possible
                     mech = "table-" + ("first-match" if "first registered" in bad else "mismatch")
@@ -397,7 +510,8 @@ def run_shard(cfg):
         return {"evaluations": n, "distinct_count": n - counters.get("unspecified_not_judged", 0),
                 "counters": dict(counters), "violations": violations, "samples": samples}
     distinct = run_tables(cfg, counters, violations, samples)
-    return {"evaluations": counters.get("table_lookups", 0), "distinct": sorted(distinct),
+    run_longlived(cfg, counters, violations, samples)
+    return {"evaluations": counters.get("table_lookups", 0) + counters.get("longlived_lookups", 0) + counters.get("http_channel_requests", 0), "distinct": sorted(distinct),
             "counters": dict(counters), "violations": violations, "samples": samples}
 
 
@@ -405,7 +519,7 @@ def finish(tier, seed, results):
     m = merge(results)
     inconclusive = []
     need(m["counters"], ["pairs", "ref_match", "ref_nomatch", "bindings_checked", "table_lookups",
-                         "dispatch_404", "dispatch_routed", "lookups_between_registrations", "tables_from_resource_classes",
+                         "dispatch_404", "dispatch_routed", "lookups_between_registrations", "tables_from_resource_classes", "longlived_lookups", "http_channel_routed", "http_channel_requests_with_fragment",
                          "dispatch_websocket_route_without_upgrade", "patterns_spelled_with_extra_slashes", "overlapping_tables"], inconclusive)
     maxp, maxs = BOUNDS[tier]
     cov = {
